@@ -69,7 +69,7 @@ def same(exp, got):
         return exp["i"] == got["i"] and same(exp["v"], got["v"])
     if t == "err":
         return exp["m"] == "?" or exp["m"] == got["m"]     # builtin error texts are unspecified
-    if t == "fn":
+    if t in ("fn", "gen"):
         return True
     return False
 
